@@ -369,13 +369,32 @@ def check_quoted_values_are_decoded(repo, rep):
                             stores.append((g, tk, st))
         n += 1
         bad = []
+
+        def decoded(g, tk, expr, depth=0):
+            v = norm.subst_locals(g.node, expr, only_pure=False)
+            if isinstance(v, ast.Call) and repo.resolve(
+                    mod, v.func, model.scope_locals(g)) in (
+                    LEX + '.decode_escapes',) and len(v.args) == 1 and \
+                    model.norm(v.args[0]) == '%s.value[1:-1]' % tk:
+                return True
+            # a helper that is handed the token and returns the decoded
+            # text on every path
+            if isinstance(v, ast.Call) and isinstance(
+                    v.func, ast.Name) and depth < 2:
+                h = mod.functions.get(v.func.id)
+                if h is not None and h.parent_func is None:
+                    idx = [i for i, a in enumerate(v.args) if isinstance(
+                        a, ast.Name) and a.id == tk]
+                    rets = [r for r in model.walk_shallow(h.node)
+                            if isinstance(r, ast.Return)]
+                    if idx and idx[0] < len(h.params()) and rets:
+                        return all(
+                            r.value is not None and decoded(
+                                h, h.params()[idx[0]], r.value, depth + 1)
+                            for r in rets)
+            return False
         for g, tk, st in stores:
-            v = norm.subst_locals(g.node, st.value, only_pure=False)
-            ok = isinstance(v, ast.Call) and repo.resolve(
-                mod, v.func, model.scope_locals(g)) in (
-                LEX + '.decode_escapes',) and len(v.args) == 1 and \
-                model.norm(v.args[0]) == '%s.value[1:-1]' % tk
-            if not ok:
+            if not decoded(g, tk, st.value):
                 bad.append(st)
         rep.ob('R16g', fi.key + '/value-is-decoded-text', bool(stores) and
                not bad,
